@@ -156,11 +156,12 @@ Record state := {
   now : Z;
   next_key : nat;
   next_rid : nat;
-  log : list issued
+  log : list issued;
+  owner : fmap (ckind * nat)     (* ghost: for which kind of credential and which request id a key was minted *)
 }.
 
 Definition state0 (cls : fmap client) : state :=
-  {| st := store0; clients := cls; now := 0%Z; next_key := 0; next_rid := 0; log := [] |}.
+  {| st := store0; clients := cls; now := 0%Z; next_key := 0; next_rid := 0; log := []; owner := fempty |}.
 
 Definition key_of (s : state) (p : pres) : option nat :=
   match p_ref p with
@@ -169,14 +170,16 @@ Definition key_of (s : state) (p : pres) : option nat :=
   end.
 
 Definition set_store (s : state) (x : store) : state :=
-  {| st := x; clients := clients s; now := now s; next_key := next_key s; next_rid := next_rid s; log := log s |}.
+  {| st := x; clients := clients s; now := now s; next_key := next_key s; next_rid := next_rid s; log := log s; owner := owner s |}.
 Definition set_clients (s : state) (c : fmap client) : state :=
-  {| st := st s; clients := c; now := now s; next_key := next_key s; next_rid := next_rid s; log := log s |}.
+  {| st := st s; clients := c; now := now s; next_key := next_key s; next_rid := next_rid s; log := log s; owner := owner s |}.
 Definition set_now (s : state) (t : Z) : state :=
-  {| st := st s; clients := clients s; now := t; next_key := next_key s; next_rid := next_rid s; log := log s |}.
-Definition mint (s : state) : nat * state :=
-  (next_key s, {| st := st s; clients := clients s; now := now s; next_key := S (next_key s); next_rid := next_rid s; log := log s |}).
+  {| st := st s; clients := clients s; now := t; next_key := next_key s; next_rid := next_rid s; log := log s; owner := owner s |}.
+(* token generation: a fresh signature, never handed out before *)
+Definition mint (s : state) (kd : ckind) (rid : nat) : nat * state :=
+  (next_key s, {| st := st s; clients := clients s; now := now s; next_key := S (next_key s); next_rid := next_rid s;
+                  log := log s; owner := upd (owner s) (next_key s) (Some (kd, rid)) |}).
 Definition fresh_rid (s : state) : nat * state :=
-  (next_rid s, {| st := st s; clients := clients s; now := now s; next_key := next_key s; next_rid := S (next_rid s); log := log s |}).
+  (next_rid s, {| st := st s; clients := clients s; now := now s; next_key := next_key s; next_rid := S (next_rid s); log := log s; owner := owner s |}).
 Definition log_add (s : state) (l : list issued) : state :=
-  {| st := st s; clients := clients s; now := now s; next_key := next_key s; next_rid := next_rid s; log := (log s ++ l)%list |}.
+  {| st := st s; clients := clients s; now := now s; next_key := next_key s; next_rid := next_rid s; log := (log s ++ l)%list; owner := owner s |}.
